@@ -72,13 +72,18 @@ static void checkC09(Ctx& c, long idx, Rng& r) {
     const bool linearOnly = (idx % 7 == 3);
     // scenario: 0 already satisfied, 1 tiny, 2 small, 3 medium, 4 unsatisfiable
     int scen; { double x = r.uni(); scen = x < 0.15 ? 0 : x < 0.35 ? 1 : x < 0.65 ? 2 : x < 0.90 ? 3 : 4; }
-    const bool hasPres = r.coin(0.4);
+    if (c.args.getInt("scen", -1) >= 0) scen = (int)c.args.getInt("scen", -1);      // exploration aid: --scen 4 --unsat 2
+    bool hasPres = r.coin(0.4);
     const bool unnormQuat = doQ && r.coin(0.5);
 
     c.setPhase("generate");
     GenOpts go; go.maxBodies = 5; go.pLoneParticle = 0.02;
     if (linearOnly) go.types = {MT_Pin, MT_Slider, MT_Cylinder, MT_Translation, MT_Planar, MT_Screw, MT_Universal};
     ModelDesc d = randomDesc(r, go, idx);
+    // forced cell (DESIGN 1.5a "force the rare specialisations"): a consistent, redundant constraint between two
+    // rigidly connected bodies (Weld mobilizer) as the only constraint: its Jacobian is structurally zero
+    const bool zeroJac = adv && (idx % 40 == 5 || idx % 40 == 26) && d.nodes[0].type != MT_Weld;
+    if (zeroJac) { NodeDesc w; w.type = MT_Weld; w.parent = r.integer(0, (int)d.nodes.size() - 1); w.fF = r.integer(0, 2); w.fM = r.integer(0, 2); w.sub = r.next(); d.nodes.push_back(w); }
     int nn = (int)d.nodes.size();
     const double t0 = r.uni(0, 3);
 
@@ -113,11 +118,21 @@ static void checkC09(Ctx& c, long idx, Rng& r) {
     ConGenOpts co; co.nodeBlocked = blocked; co.t0 = t0;
     if (linearOnly) co.types = {CT_ConstantCoordinate, CT_CouplerLinear, CT_PrescribedMotionC, CT_ConstantSpeed, CT_SpeedCouplerLinear};
     int nc = r.integer(1, 4); std::vector<ConSpec> cons;
+    if (zeroJac) {
+        ConSpec cs; cs.b1 = d.nodes[nn - 1].parent; cs.b2 = nn - 1; Transform X1 = poseOf(A, a, cs.b1), X2 = poseOf(A, a, cs.b2);
+        int k3 = r.integer(0, 2); cs.type = k3 == 0 ? CT_Rod : k3 == 1 ? CT_Ball : CT_PointInPlane;
+        cs.p1 = randVec3(r, 0.8); cs.p2 = randVec3(r, 0.8);
+        if (cs.type == CT_Rod) { cs.val = (X1 * cs.p1 - X2 * cs.p2).norm(); if (cs.val < 0.25) { cs.p1 += Vec3(1, 0, 0); cs.val = (X1 * cs.p1 - X2 * cs.p2).norm(); } }
+        else if (cs.type == CT_Ball) cs.p2 = ~X2 * (X1 * cs.p1);
+        else { cs.n1 = Vec3(randUnit(r)); cs.val = dot(cs.n1, ~X1 * (X2 * cs.p2)); }
+        cons.push_back(cs); if (scen == 4) scen = 2;
+    } else
     for (int i = 0; i < nc; ++i) { ConSpec cs; if (genConstraint(r, A, a, co, cs)) cons.push_back(cs); }
     if (cons.empty()) { c.skip("no-constraint-placed"); return; }
     std::string unsatKind;
     if (scen == 4) {   // add a contradictory constraint
         int kind = r.integer(0, 3); ConSpec x; bool ok = false;
+        if (c.args.getInt("unsat", -1) >= 0) kind = (int)c.args.getInt("unsat", -1);
         if (kind == 0) { ConGenOpts o2 = co; o2.types = {CT_ConstantCoordinate}; if (genConstraint(r, A, a, o2, x)) { ConSpec y = x; y.val += (r.coin() ? 1 : -1) * r.uni(0.2, 1.0); cons.push_back(x); cons.push_back(y); ok = true; unsatKind = "two-ConstantCoordinate"; } }
         if (kind == 1) { ConGenOpts o2 = co; o2.types = {CT_Rod}; if (genConstraint(r, A, a, o2, x)) { ConSpec y = x; y.val *= r.uni(1.3, 2.0); cons.push_back(x); cons.push_back(y); ok = true; unsatKind = "two-Rod-lengths"; } }
         if (kind == 2 || (!ok && kind != 3)) {   // orientation across a translation-only mobilizer
@@ -192,18 +207,20 @@ static void checkC09(Ctx& c, long idx, Rng& r) {
     if (doU) { Vector& u = s.updU(); for (int i = 0; i < u.size(); ++i) if (freeU[i] || !adv) u[i] += delta * r.normal(); }
     if (adv) sys.realize(s, api == 0 ? Stage::Position : Stage::Velocity);
     const Vector qIn = s.getQ(), uIn = s.getU();
-    Norms nIn; Matrix PqIn, GIn; bool NisI = true;
+    Norms nIn; Matrix PqIn, GIn; bool NisI = true; double jacMax = -1;   // max |entry| of the constraint Jacobian on the free variables
     try {
         nIn = recomputeNorms(B, s, inf, true);
+        if (api == 0 && nIn.mHolo > 0) { State f = s; sys.realize(f, Stage::Position); Matrix Pq; matter.calcPq(f, Pq); jacMax = 0; for (int j = 0; j < Pq.nrow(); ++j) for (int i = 0; i < Pq.ncol(); ++i) if (freeQ[i]) jacMax = std::max(jacMax, std::fabs(Pq(j, i))); }
         if (doQ && linearOnly && allLinear) {
             State f = s; sys.realize(f, Stage::Position); matter.calcPq(f, PqIn);
             int nq = f.getNQ(), nu = f.getNU(); if (nq != nu) NisI = false;
             for (int j = 0; j < nu && NisI; ++j) { Vector e(nu, 0.0), Ne; e[j] = 1; matter.multiplyByN(f, false, e, Ne); for (int i = 0; i < nq; ++i) if (Ne[i] != (i == j ? 1.0 : 0.0)) NisI = false; }
         }
-        if (api == 1) { matter.calcG(s, GIn); }
+        if (api == 1) { matter.calcG(s, GIn); if (nIn.mPV > 0) { jacMax = 0; for (int j = 0; j < nIn.mPV; ++j) for (int i = 0; i < GIn.ncol(); ++i) if (freeU[i]) jacMax = std::max(jacMax, std::fabs(GIn(j, i))); } }
     } catch (const std::exception& e) { c.skip("input-state-not-realizable"); return; }
     if (!nIn.finite) { c.skip("nonfinite-input"); return; }
-    wit.set("delta", delta).set("normIn_perr", nIn.perr).set("normIn_quat", nIn.quat).set("normIn_pverr", nIn.pverr).set("qIn", jV(qIn)).set("uIn", jV(uIn));
+    const bool degenerate = adv && jacMax >= 0 && jacMax < 1e-9;   // structurally zero Jacobian (only rounding noise)
+    wit.set("jacobianMaxAbs", jacMax).set("delta", delta).set("normIn_perr", nIn.perr).set("normIn_quat", nIn.quat).set("normIn_pverr", nIn.pverr).set("qIn", jV(qIn)).set("uIn", jV(uIn));
     auto W = [&](const char* what) { Json w = wit; return [w, what]() { Json x = w; x.set("what", what); return x; }; };
 
     // ------------------------------------------------------------------ the call
@@ -310,8 +327,21 @@ static void checkC09(Ctx& c, long idx, Rng& r) {
                     if (sat && nPres == 0) { c.require("noop:satisfied-state-unchanged:" + A_, freeQsame && freeUsame, W2("state already within accuracy was modified by project(state,accuracy)")); outcome = "noop"; }
                     else outcome = "projected";
                 }
+                // A constraint set whose Jacobian is structurally zero cannot be improved by moving: the minimal correction
+                // is none (apart from quaternion normalisation). Attributed separately from the generic min-norm test.
+                if (degenerate) {
+                    double ch = 0;
+                    if (api == 0) for (size_t k = 0; k < B.m.bodies.size(); ++k) {
+                        const MobilizedBody& mb = B.m.bodies[k]; bool qt = matter.isUsingQuaternion(s, mb.getMobilizedBodyIndex());
+                        int q0 = mb.getFirstQIndex(s), nq = mb.getNumQ(s); double ql = 1;
+                        if (qt) { ql = 0; for (int i = 0; i < 4; ++i) ql += qIn[q0 + i] * qIn[q0 + i]; ql = std::sqrt(ql); if (std::fabs(ql - 1) <= acc) ql = 1; }
+                        for (int i = 0; i < nq; ++i) ch = std::max(ch, std::fabs(qOut[q0 + i] - qIn[q0 + i] / ((qt && i < 4) ? ql : 1.0)));
+                    } else ch = vmaxabs(uOut - uIn);
+                    c.check(std::string("zero-jacobian:") + (force ? "forced-" : "") + "projection-changes-state:" + A_, ch, 1e-6 + 10 * acc, W2("all constraint Jacobian entries are rounding noise and errors were within accuracy, yet a 'successful' projection moved the state"));
+                    c.cover(std::string("zero-jacobian/") + A_ + (force ? "/forced" : "/unforced"));
+                }
                 // weighted minimum-norm correction
-                if (doQ && linearOnly && allLinear && NisI && PqIn.nrow() > 0 && !(freeQsame)) {
+                if (doQ && linearOnly && allLinear && NisI && PqIn.nrow() > 0 && !(freeQsame) && !degenerate) {
                     const Vector& uw = s.getUWeights(); std::vector<int> F; for (int i = 0; i < qOut.size(); ++i) if (freeQ[i]) F.push_back(i);
                     std::vector<std::vector<double>> cols; for (int j = 0; j < PqIn.nrow(); ++j) { std::vector<double> col; for (int i : F) col.push_back(PqIn(j, i) / uw[i]); cols.push_back(col); }
                     std::vector<double> y; double qs = 1; for (int i : F) { y.push_back(uw[i] * (qOut[i] - qIn[i])); qs = std::max(qs, std::fabs(uw[i] * qIn[i])); }
@@ -319,7 +349,7 @@ static void checkC09(Ctx& c, long idx, Rng& r) {
                     c.check("minnorm:q-linear:" + A_, rr, 1e-6 * vnorm2(y) + 1e-13 * qs, W2("correction dq of a linear constraint set is not Wq-orthogonal to null(Pq)"));
                     c.cover("minnorm-q/" + ckey);
                 }
-                if (api == 1 && GIn.nrow() >= nOut.mPV && nOut.mPV > 0 && !freeUsame) {
+                if (api == 1 && GIn.nrow() >= nOut.mPV && nOut.mPV > 0 && !freeUsame && !degenerate) {
                     const Vector& uw = s.getUWeights(); std::vector<int> F; for (int i = 0; i < uOut.size(); ++i) if (freeU[i]) F.push_back(i);
                     std::vector<double> Einv(uOut.size()); for (int i = 0; i < uOut.size(); ++i) Einv[i] = std::max(1.0 / uw[i], std::fabs(uIn[i]));
                     std::vector<std::vector<double>> cols; for (int j = 0; j < nOut.mPV; ++j) { std::vector<double> col; for (int i : F) col.push_back(GIn(j, i) * Einv[i]); cols.push_back(col); }
